@@ -44,7 +44,7 @@ type Violation struct {
 	StrModel  map[string]string `json:"str_model,omitempty"`
 	Choices   []int             `json:"choices,omitempty"` // non-solver decisions (select/scheduler) along the path
 	Decisions string            `json:"decisions"`
-	Kind      string            `json:"kind"` // assert | panic | hang
+	Kind      string            `json:"kind"`                   // assert | panic | hang
 	UF        bool              `json:"uf_dependent,omitempty"` // path used uninterpreted stand-ins: the model may not be realisable natively
 	ND        int               `json:"nd_choices,omitempty"`
 	Confirmed string            `json:"confirmed,omitempty"`
